@@ -353,4 +353,17 @@ static inline void hm_hdrs_set(iora_hdrs *m, const iora_sv *hs, iora_sv k, iora_
   else if (is_te) { m->has_te = 1; m->te.second = v; }
   if (HB.cur == GS) { HB.seen = 1; HB.s_iscl = is_cl; HB.s_va = off; HB.s_vn = v.n; HB.s_le = HB.cur_end; }
 }
+
+/* ================= determineFraming ================= */
+/* resp.headers.find("Transfer-Encoding" | "Content-Length") on the case-insensitive map */
+static inline iora_hdr_it hm_hdrs_find(const iora_hdrs *m, const char *lit, size_t len)
+{
+  iora_sv k = { lit, len };
+  if (HM_NAME_IS_CL(k)) return m->has_cl ? &m->cl : NULL;
+  if (HM_NAME_IS_TE(k)) return m->has_te ? &m->te : NULL;
+  IORA_ASSERT(0, "model: only the two framing fields are looked up");
+  return NULL;
+}
+/* ghost record of the two callees (replaced by environment contracts in the determineFraming proof; their own contracts are proved above) */
+struct hm_df_ghost { bool te_called, te_ret; const char *te_p; size_t te_n; bool cl_called, cl_throws; uint64_t cl_ret; const char *cl_p; size_t cl_n; } HD;
 #endif
